@@ -68,10 +68,11 @@ def gen_programs(rep, tier, families=None):
         tlc.require_ok(g2, "DslGen (GenPairs)")
         if rep is not None:
             rep.tlc(g2)
-        import random
-        rnd = random.Random(seed())
+        # a FIXED sample of the pair space (ordered by a hash of the cell tags, independent of VERIF_SEED): the
+        # known-findings list must be complete for the unchanged tree whatever the seed
         pairs = [p for p in g2.testcases if len(p["cells"]) == 2]
-        for p in rnd.sample(pairs, min(400, len(pairs))):
+        pairs.sort(key=lambda p: zlib.crc32(("%s+%s" % (p["cells"][0], p["cells"][1])).encode()))
+        for p in pairs[:400]:
             p = dict(p)
             p["id"] = "%s+%s@%s" % (p["cells"][0], p["cells"][1], optsig(p["opts"]))
             out.append(p)
